@@ -12,8 +12,8 @@ void ll_native_assume_fail(const char* what);
 #define LL_TRAP() ll_native_assume_fail("trap")
 #define __CPROVER_assume(c) LL_ASSUME(c)
 #endif
-#ifdef LL_ARENA_PTR_CELLS
-/* typed bump arena: cells are pointers so that pointer stores/loads need no byte-level re-interpretation */
+#if defined(LL_ARENA_PTR_CELLS) && defined(__CPROVER__)
+/* typed bump arena (a CBMC modelling device; the native builds use malloc): cells are pointers so that pointer stores/loads need no byte-level re-interpretation */
 #ifndef LL_ARENA_T
 #define LL_ARENA_T uint8_t*
 #endif
@@ -145,7 +145,7 @@ void __cxa_guard_abort(uint8_t* g) { }
 uint32_t __cxa_atexit(uint8_t* f, uint8_t* p, uint8_t* d) { return 0; }
 #endif
 #ifndef LL_NO_STRTO
-int64_t ll_strtol(uint8_t* nptr, uint8_t* endptr, uint32_t base) {
+uint64_t ll_strtol(uint8_t* nptr, uint8_t* endptr, uint32_t base) {
   uint8_t* s = nptr; int neg = 0; uint64_t acc = 0; int any = 0, ovf = 0;
   while (*s == ' ' || (*s >= 9 && *s <= 13)) s++;
   if (*s == '-') { neg = 1; s++; } else if (*s == '+') s++;
@@ -154,7 +154,7 @@ int64_t ll_strtol(uint8_t* nptr, uint8_t* endptr, uint32_t base) {
   for (;; s++) { int d = ll_digitval(*s); if (d >= (int)base) break; any = 1;
     if (acc > ((uint64_t)INT64_MAX + (uint64_t)neg - (uint64_t)d) / base) ovf = 1; else acc = acc * base + (uint64_t)d; }
   if (endptr) *(uint8_t**)endptr = any ? s : nptr;
-  if (ovf) { ll_errno_cell = 34; return neg ? INT64_MIN : INT64_MAX; }
-  return neg ? (int64_t)((uint64_t)0 - acc) : (int64_t)acc;
+  if (ovf) { ll_errno_cell = 34; return neg ? (uint64_t)INT64_MIN : (uint64_t)INT64_MAX; }
+  return neg ? ((uint64_t)0 - acc) : acc;
 }
 #endif
